@@ -6,33 +6,50 @@ adapter runs it on real wallets (one sqlite file each), the extracted model reco
 alone, and an independent Python oracle (own BIP32 over hashlib + a pure-Python secp256k1, own address and
 extended-key encoders, own reading of the BIP path layouts) judges the implementation's answer against the
 property statement.  The flow is core.standard_check's, run in parallel chunks."""
-import hashlib, hmac, json, os, random, re, sys, time, concurrent.futures
+import hashlib, hmac, json, os, random, re, sys, time, unicodedata, concurrent.futures
 import core
 from core import Case
 
 PROP = 'C09'
-COQ_FILES = ['Extract/C09.v', 'Proofs/WalletKeys.v', 'Proofs/WalletKeysBook.v', 'Properties/C09.v']
+COQ_FILES = ['Extract/C09.v', 'Proofs/WalletKeys.v', 'Proofs/WalletKeysBook.v', 'Proofs/WalletKeysIssue.v',
+             'Proofs/WalletKeysTables.v', 'Properties/C09.v']
 DRIVER = 'c09'
 IMPL = 'harness/impl/c09_impl.py'
 ALLOWED_AXIOMS = []
 ASSUMPTIONS = [
     'theorems are about coq/Model/WalletKeys.v: lib_* mirrors keys.path_expand, main.get_key_structure_data, '
-    'HDKey.child_private/child_public, Wallet.create/keys_for_path/new_keys/_get_key/new_account/public_master and '
-    'WalletKey.from_key for single-signature bip32 wallets; spec_* is BIP32/44/45/48/49/84',
+    'HDKey.child_private/child_public, Wallet.create/keys_for_path/new_keys/_get_key/new_account/public_master/scan/'
+    'keys (+ keys_addresses, keys_address_payment/_change, addresslist) and WalletKey.from_key for single-signature '
+    'bip32 wallets; spec_* is BIP32/39/44/45/48/49/84',
     'tie to /repo: WALLET_KEY_STRUCTURES and KEY_PATH_* are regenerated on every run (translator/gen_walletcfg.py -> '
-    'Gen/GenWalletCfg.v), coin types and version bytes come from Gen/GenNetworks.v; every other lib_* definition is '
-    'tied by the differential correspondence (whole key table of real wallets vs the extracted model, from the seed alone)',
+    'Gen/GenWalletCfg.v), coin types and version bytes come from Gen/GenNetworks.v; Proofs/WalletKeysTables.v proves '
+    'that these regenerated tables equal a frozen copy of the documented values on every field the model reads; every '
+    'other lib_* definition is tied by the differential correspondence (whole key table of real wallets after EVERY '
+    'command vs the extracted model, from the seed alone)',
+    'creation from a mnemonic: wallet_from_mnemonic is the wallet of PBKDF2-HMAC-SHA512(sentence, "mnemonic" || '
+    'passphrase, 2048, 64) (spec_bip39_seed); the harness evaluates PBKDF2 with hashlib for most scenarios and the '
+    'extracted model evaluates it itself for a few per run; NFKD normalisation is done by the harness (unicodedata)',
     'modelled, not verified: sqlite/SQLAlchemy persistence (Reopen is the identity in the model and a real re-open in the '
     'correspondence), group laws of secp256k1 / collision resistance (distinct paths are proved distinct, distinct '
-    'addresses are checked on every run but not proved), multisig cosigner wallets (C10), import_master_key, '
-    'explicit "m/..." paths on account-level wallets',
+    'addresses are checked on every run but not proved), import_master_key, explicit "m/..." paths on account-level '
+    'wallets, custom key_path / purpose arguments',
+    'multisig cosigner wallets: only the index bookkeeping of the main wallet is modelled (ms_* in Model/WalletKeys.v; '
+    'theorem for one-at-a-time creation, the bulk / explicit-path class is refuted and recorded as a known class); real '
+    'multisig wallets are PROBED: their histories are judged by the independent oracle alone (BIP48/BIP45 paths, m-of-n '
+    'script addresses over the cosigners\' BIP32 keys, index invariant after every command), not compared with a model',
     'WalletKey.public() is modelled as repaired by fixes/C09-1 (returns a stripped copy)',
 ]
-RULE = ('all networks x witness types at creation; seeded random histories of new_key / new_key_change / new_keys / '
-        'get_key(s) / get_key(s)_change / new_account / key_for_path / keys_for_path bulk / public_master / '
-        'WalletKey.public / mark-used / Reopen over accounts 0..3, mixed witness types and second networks, followed by '
-        'restores from seed, mnemonic, xprv, account xpub (two export paths) and account xprv; table paths for all six '
-        'key structures; a case is non-trivial when a wallet was created and keys were handed out; distinct by request')
+RULE = ('all networks x witness types at creation with rotating ways of creating the wallet (HDKey from seed, sentence + '
+        'password, HDKey.from_passphrase, Mnemonic(language).to_seed in nine languages, extended private / account public / '
+        'account private key text written by the harness, HDKey objects of those, exports of a live wallet, '
+        'wallet_create_or_open, network / witness type left to the key); seeded random histories of new_key / '
+        'new_key_change / new_keys / get_key(s) / get_key(s)_change / new_account / key_for_path (list, string, index-only, '
+        'full path) / keys_for_path bulk / scan / public_master / WalletKey.public / mark-used / listings / Reopen (also via '
+        'wallet_create_or_open) over accounts 0..3, mixed witness types and second networks; issuance histories that name '
+        'indices out of order (high before low, repeats, overlapping bulk ranges) before and between new keys; a '
+        'creation / restoration matrix per sentence; multisig 1..3-of-2..3 cosigner wallets on eight networks; table paths '
+        'for all six key structures; a case is non-trivial when a wallet was created and keys were handed out; distinct by '
+        'request')
 IMPL_TIMEOUT = 3000
 WORKERS = 8
 
@@ -165,32 +182,48 @@ def _ckd(x, idx, hardened):
     return XK(None, _ec_add(_mul_g(il), x.pt), i[32:], x.depth + 1, fpr, n)
 
 
-_NETS = None
 PURPOSE = {'legacy': 44, 'p2sh-segwit': 49, 'segwit': 84}
 WTN = {'l': 'legacy', 'p': 'p2sh-segwit', 's': 'segwit'}
+WTL = {v: k for k, v in WTN.items()}
+
+# Frozen protocol constants of the networks the library documents (never read from /repo at run time):
+# name -> (BIP44 coin type, P2PKH version byte, P2SH version byte, Bech32 HRP,
+#          {witness type: (extended public key version, extended private key version)})
+# bitcoin / testnet / signet: Bitcoin Core chainparams + SLIP-132 (x/y/z, t/u/v); litecoin: Ltub/Ltpv + Mtub/Mtpv,
+# coin type 2 (SLIP-44); dogecoin coin type 3; regtest and bitcoinlib_test as the library documents them.
+FROZEN_NETS = {
+    'bitcoinlib_test': (9999999, '90', '95', 'blt', {'legacy': ('2FFFACCC', '2FFFADDD'), 'p2sh-segwit': ('2FFFAEEE', '2FFFB300'), 'segwit': ('2FFFB666', '2FFFB900')}),
+    'bitcoin': (0, '00', '05', 'bc', {'legacy': ('0488B21E', '0488ADE4'), 'p2sh-segwit': ('049D7CB2', '049D7878'), 'segwit': ('04B24746', '04B2430C')}),
+    'testnet': (1, '6F', 'C4', 'tb', {'legacy': ('043587CF', '04358394'), 'p2sh-segwit': ('044A5262', '044A4E28'), 'segwit': ('045F1CF6', '045F18BC')}),
+    'testnet4': (1, '6F', 'C4', 'tb', {'legacy': ('043587CF', '04358394'), 'p2sh-segwit': ('044A5262', '044A4E28'), 'segwit': ('045F1CF6', '045F18BC')}),
+    'signet': (1, '6F', 'C4', 'tb', {'legacy': ('043587CF', '04358394'), 'p2sh-segwit': ('044A5262', '044A4E28'), 'segwit': ('045F1CF6', '045F18BC')}),
+    'regtest': (0, '00', '05', 'bcrt', {'legacy': ('0488B21E', '0488ADE4'), 'p2sh-segwit': ('049D7CB2', '049D7878'), 'segwit': ('04B24746', '04B2430C')}),
+    'litecoin': (2, '30', '32', 'ltc', {'legacy': ('019DA462', '019D9CFE'), 'p2sh-segwit': ('01B26EF6', '01B26792'), 'segwit': ('01B26EF6', '01B26792')}),
+    'litecoin_legacy': (2, '30', '05', 'ltc', {'legacy': ('019DA462', '019D9CFE'), 'p2sh-segwit': ('01B26EF6', '01B26792'), 'segwit': ('01B26EF6', '01B26792')}),
+    'litecoin_testnet': (1, '6F', '3A', 'tltc', {'legacy': ('0436F6E1', '0436EF7D'), 'p2sh-segwit': ('0436F6E1', '0436EF7D'), 'segwit': ('0436F6E1', '0436EF7D')}),
+    'dogecoin': (3, '1E', '16', 'doge', {'legacy': ('0488B21E', '0488ADE4')}),
+    'dogecoin_testnet': (1, '71', 'C4', 'tdoge', {'legacy': ('043587CF', '04358394')}),
+}
+NET_NAMES = list(FROZEN_NETS)
 
 
-def nets():
-    global _NETS
-    if _NETS is None:
-        _NETS = json.load(open(os.path.join(core.REPO, 'bitcoinlib', 'data', 'networks.json'), encoding='utf8'))
-    return _NETS
+def coin(net):
+    return FROZEN_NETS[net][0]
 
 
 def _address(net, wt, pt):
-    nw, h = nets()[net], _h160(_ser(pt))
+    _, pkh, sh, hrp, _ = FROZEN_NETS[net]
+    h = _h160(_ser(pt))
     if wt == 'legacy':
-        return _b58check(bytes.fromhex(nw['prefix_address']) + h)
+        return _b58check(bytes.fromhex(pkh) + h)
     if wt == 'p2sh-segwit':
-        return _b58check(bytes.fromhex(nw['prefix_address_p2sh']) + _h160(b'\x00\x14' + h))
-    return _segwit_addr(nw['prefix_bech32'], h)
+        return _b58check(bytes.fromhex(sh) + _h160(b'\x00\x14' + h))
+    return _segwit_addr(hrp, h)
 
 
 def _version(net, wt, private):
-    for r in nets()[net]['prefixes_wif']:
-        if r[2] == ('private' if private else 'public') and not r[3] and r[4] == wt:
-            return bytes.fromhex(r[0])
-    return None
+    v = FROZEN_NETS[net][4].get(wt)
+    return bytes.fromhex(v[1 if private else 0]) if v else None
 
 
 def _xser(net, wt, x, private):
@@ -227,15 +260,122 @@ def parse_path(s):
     return parts[0], out
 
 
-# ------------------------------------------------------------------ generators
-def _mnemonic(rng):
-    words = open(os.path.join(core.REPO, 'bitcoinlib', 'wordlist', 'english.txt'), encoding='utf8').read().split()
+# ------------------------------------------------------------------ BIP39 (independent: hashlib + unicodedata)
+# SHA-256 of the nine BIP39 word lists (bitcoin/bips bip-0039/*.txt); a list is read from the tree only to pick
+# words and only when it has this digest
+WORDLIST_SHA256 = {
+    'english': '2f5eed53a4727b4bf8880d8f3f199efc90e58503646d9ff8eff3a2ed3b24dbda',
+    'chinese_simplified': '5c5942792bd8340cb8b27cd592f1015edf56a8c5b26276ee18a482428e7c5726',
+    'chinese_traditional': '417b26b3d8500a4ae3d59717d7011952db6fc2fb84b807f3f94ac734e89c1b5f',
+    'dutch': 'c2019fa4d23ee907c2a7bc30949f42aaa4b59714b464a67c5ed97f5505386567',
+    'french': 'ebc3959ab7801a1df6bac4fa7d970652f1df76b683cd2f4003c941c63d517e59',
+    'italian': 'd392c49fdb700a24cd1fceb237c1f65dcc128f6b34a8aacb58b59384b5c648c2',
+    'japanese': '2eed0aef492291e061633d7ad8117f1a2b03eb80a29d0e4e3117ac2528d05ffd',
+    'portuguese': '2685e9c194c82ae67e10ba59d9ea5345a23dc093e92276fc5361f6667d79cd3f',
+    'spanish': '46846a5a0139d1e3cb77293e521c2865f7bcdb82c44e8d0a06a2cd0ecba48c0b',
+}
+LANGS = list(WORDLIST_SHA256)
+_WORDS = {}
+WORDLIST_NOTES = []
+
+
+def wordlist(lang):
+    """the 2048 words of a language, or None when the file in the tree is not the BIP39 list"""
+    if lang not in _WORDS:
+        try:
+            raw = open(os.path.join(core.REPO, 'bitcoinlib', 'wordlist', lang + '.txt'), 'rb').read()
+        except OSError:
+            raw = b''
+        if hashlib.sha256(raw).hexdigest() == WORDLIST_SHA256[lang]:
+            _WORDS[lang] = raw.decode('utf8').split()
+        else:
+            WORDLIST_NOTES.append('word list %s.txt is not the BIP39 list (digest differs); language not exercised' % lang)
+            _WORDS[lang] = None
+            if lang == 'english':      # the sentence is only PBKDF2 input: any 2048 words do for picking
+                _WORDS[lang] = raw.decode('utf8', 'replace').split() or None
+    return _WORDS[lang]
+
+
+def nfkd(s):
+    return unicodedata.normalize('NFKD', s)
+
+
+def bip39_seed(sentence, password):
+    """BIP39 'From mnemonic to seed'"""
+    return hashlib.pbkdf2_hmac('sha512', nfkd(sentence).encode('utf8'), b'mnemonic' + nfkd(password).encode('utf8'),
+                               2048, 64)
+
+
+def _mnemonic(rng, lang='english'):
+    """a valid BIP39 sentence (entropy + checksum) of the language: (list of words, sentence)"""
+    words = wordlist(lang)
     ent = bytes(rng.randrange(256) for _ in range(rng.choice([16, 20, 24, 32])))
     bits = bin(int.from_bytes(ent, 'big'))[2:].zfill(len(ent) * 8) + \
         bin(hashlib.sha256(ent).digest()[0])[2:].zfill(8)[:len(ent) // 4]
     ws = [words[int(bits[i:i + 11], 2)] for i in range(0, len(bits), 11)]
-    seed = hashlib.pbkdf2_hmac('sha512', ' '.join(ws).encode(), b'mnemonic', 2048, 64)
-    return ws, seed
+    return ws, ' '.join(ws)
+
+
+PASSWORDS = ['TREZOR', 'pass word', 'pässwörd', 'ｐａｓｓ', 'パスワード', 'x',
+             'correct horse battery staple', 'é́ﬁ']
+
+
+def _password(rng):
+    r = rng.random()
+    if r < 0.6:
+        return rng.choice(PASSWORDS)
+    return ''.join(rng.choice('abcdefghijklmnopqrstuvwxyzABCDEFGHIJKLMNOPQRSTUVWXYZ0123456789 !#$%&*') for _ in
+                   range(rng.randrange(1, 14)))
+
+
+def sentence_token(sentence, password):
+    try:
+        sentence.encode('ascii')
+        tok = sentence.replace(' ', '_')
+    except UnicodeEncodeError:
+        tok = 'hex:' + sentence.encode('utf8').hex()
+    if password:
+        tok += '+' + password.encode('utf8').hex()
+    return tok
+
+
+def parse_sentence_token(tok):
+    pw = ''
+    if '+' in tok:
+        tok, pwhex = tok.split('+', 1)
+        pw = bytes.fromhex(pwhex).decode('utf8')
+    if tok.startswith('hex:'):
+        return bytes.fromhex(tok[4:]).decode('utf8'), pw
+    return tok.replace('_', ' '), pw
+
+
+class Scn(object):
+    """one scenario: a sentence, a password, the BIP39 seed of both, and commands"""
+
+    def __init__(self, rng, lang='english', password=None, model_seed=False):
+        self.lang = lang
+        self.words, self.sentence = _mnemonic(rng, lang)
+        self.password = password if password is not None else ''
+        if model_seed:      # the model computes the seed itself from the bytes it is given: hand over NFKD forms
+            self.sentence, self.password = nfkd(self.sentence), nfkd(self.password)
+        self.seed = bip39_seed(self.sentence, self.password)
+        self.model_seed = model_seed
+        self.der = Deriver(self.seed)
+        self.cmds = []
+
+    def req(self):
+        return 'run %s %s %s' % ('-' if self.model_seed else self.seed.hex(), sentence_token(self.sentence, self.password),
+                                 ' '.join(self.cmds))
+
+    # extended keys written by the harness (reference serialization, BIP32)
+    def xprv(self, net, wt):
+        return _xser(net, wt, self.der.at(()), True)
+
+    def account_key(self, net, wt, acct, private):
+        x = self.der.at(((PURPOSE[wt], True), (coin(net), True), (acct, True)))
+        if not private:
+            x = XK(None, x.pt, x.c, x.depth, x.fpr, x.child)
+        return _xser(net, wt, x, private)
 
 
 def _o(x):
@@ -244,35 +384,100 @@ def _o(x):
 
 def _second_nets(net):
     """networks whose coin type differs from the wallet's own (a shared coin type is refused / collides by design)"""
-    ct = nets()[net]['bip44_cointype']
-    seen, out = {ct}, []
-    for n, d in nets().items():
-        if d['bip44_cointype'] not in seen and not n.startswith('dogecoin'):
-            seen.add(d['bip44_cointype'])
+    seen, out = {coin(net)}, []
+    for n in NET_NAMES:
+        if coin(n) not in seen and not n.startswith('dogecoin'):
+            seen.add(coin(n))
             out.append(n)
     return out
 
 
-def gen_history(rng, net, wt, master, explicit, nops):
-    """ops on slot 'a' (the wallet under test)"""
+def _listing(rng, accts, nets2):
+    """a Wallet.keys / keys_addresses / keys_address_payment / keys_address_change / addresslist query"""
+    how = rng.choice('kkkapcl')
+    acct = rng.choice([None, None] + [a for a in accts if a is not None] + [0])
+    chg = rng.choice([None, 0, 1])
+    depth = rng.choice([None, None, None, 5, 3, 4, 0])
+    used = rng.choice([None, None, 0, 1])
+    wt = rng.choice([None, None, None, 'l', 'p', 's'])
+    net = rng.choice([None, None, None] + list(nets2)) if nets2 else None
+    return 'L:a:%s:%s:%s:%s:%s:%s:%s' % (how, _o(acct), _o(chg), _o(depth), _o(used), _o(wt), _o(net))
+
+
+def gen_history(rng, net, wt, master, explicit, nops, issuance=False):
+    """ops on slot 'a' (the wallet under test).  issuance=True concentrates on index issuance: most operations hit
+    one chain, explicit indices arrive out of order (high before low, repeats, bulk ranges overlapping existing keys)
+    and are interleaved with new_key(s) / get_key(s) / mark-used / reopen."""
     ops = []
-    others = [w for w in 'lps' if w != wt] if (master and not net.startswith('dogecoin')) else []
+    others = [w for w in 'lps' if WTN[w] != WTN[wt]] if (master and not net.startswith('dogecoin')) else []
     nets2 = _second_nets(net) if master else []
     accts = [None]
     have2 = []
+    focus = (None, rng.choice([0, 0, 1]))
+    p_mixed = 0.2 if not issuance else 0.1
     for _ in range(nops):
         r = rng.random()
         acct = rng.choice(accts)
         chg = rng.choice([0, 0, 1])
-        owt = rng.choice(others) if (others and rng.random() < 0.2) else None
-        onet = rng.choice(have2) if (have2 and rng.random() < 0.2) else None
+        if issuance and rng.random() < 0.7:
+            acct, chg = focus
+        owt = rng.choice(others) if (others and rng.random() < p_mixed) else None
+        onet = rng.choice(have2) if (have2 and rng.random() < p_mixed) else None
         if onet is not None:
             acct = rng.choice([None, 0])
-        if r < 0.22:
+        if issuance:
+            # remap the draw: 30% explicit single, 8% bulk, 25% new keys, 14% get keys, 6% used, 8% reopen, 4% account,
+            # 5% listing
+            if r < 0.30:
+                kind = 'P'
+            elif r < 0.38:
+                kind = 'B'
+            elif r < 0.63:
+                kind = 'K'
+            elif r < 0.77:
+                kind = 'G'
+            elif r < 0.83:
+                kind = 'U'
+            elif r < 0.90:
+                kind = 'R'
+            elif r < 0.93:
+                kind = 'S'
+            elif r < 0.96:
+                kind = 'A' if master else 'K'
+            else:
+                kind = 'L'
+        else:
+            if r < 0.22:
+                kind = 'K'
+            elif r < 0.42:
+                kind = 'G'
+            elif r < 0.52 and master:
+                kind = 'A'
+            elif r < 0.60:
+                kind = 'U'
+            elif r < 0.68:
+                kind = 'R'
+            elif r < 0.73:
+                kind = 'M'
+            elif r < 0.78:
+                kind = 'X'
+            elif r < 0.82:
+                kind = 'L'
+            elif r < 0.85:
+                kind = 'S'
+            elif explicit and r < 0.93:
+                kind = 'P'
+            elif explicit:
+                kind = 'B'
+            else:
+                kind = 'K1'
+        if kind == 'K':
             ops.append('K:a:%s:%d:%s:%s:%d' % (_o(acct), chg, _o(owt), _o(onet), rng.choice([1, 1, 1, 2, 3, 5])))
-        elif r < 0.42:
+        elif kind == 'K1':
+            ops.append('K:a:%s:%d:-:-:1' % (_o(acct), chg))
+        elif kind == 'G':
             ops.append('G:a:%s:%d:%s:%s:%d' % (_o(acct), chg, _o(owt), _o(onet), rng.choice([1, 1, 2, 3, 6])))
-        elif r < 0.52 and master:
+        elif kind == 'A':
             if nets2 and rng.random() < 0.3:
                 n2 = rng.choice(nets2)
                 ops.append('A:a:-:%s:%s' % (_o(owt), n2))
@@ -284,38 +489,92 @@ def gen_history(rng, net, wt, master, explicit, nops):
                 for x in (1, 2, 3):
                     if x not in accts and rng.random() < 0.6:
                         accts.append(x)
-        elif r < 0.62:
+        elif kind == 'S':
+            ops.append('S:a:%d:%s:%s:%s' % (rng.choice([2, 3, 5]), _o(acct if onet is None else None),
+                                            _o(rng.choice([None, None, 0, 1])), _o(onet)))
+        elif kind == 'U':
             ops.append('U:a:%d' % rng.randrange(0, 40))
-        elif r < 0.70:
-            ops.append('R:a')
-        elif r < 0.76:
+        elif kind == 'R':
+            ops.append('R:a:o' if rng.random() < 0.3 else 'R:a')
+        elif kind == 'M':
             ops.append('M:a:%s:%s:-' % (_o(acct), _o(owt)))
-        elif r < 0.82:
+        elif kind == 'X':
             ops.append('X:a:%d' % rng.randrange(0, 40))
-        elif explicit and r < 0.92:
-            c, i = rng.choice([0, 1]), rng.choice([0, 1, 2, 5, 9, rng.randrange(0, 30)])
+        elif kind == 'L':
+            ops.append(_listing(rng, accts, have2))
+        elif kind == 'P':
+            if issuance:
+                i = rng.choice([rng.randrange(0, 5), rng.randrange(0, 12), rng.randrange(3, 40)])
+                c = chg
+            else:
+                c, i = rng.choice([0, 1]), rng.choice([0, 1, 2, 5, 9, rng.randrange(0, 30)])
             form = rng.random()
-            if form < 0.5:
+            if form < 0.35:
                 ops.append('P:a:r.%d.%d:%s:0:0:%s:-' % (c, i, _o(acct), _o(owt)))
+            elif form < 0.43:
+                ops.append('P:a:s.%d.%d:%s:0:0:%s:-' % (c, i, _o(acct), _o(owt)))
+            elif form < 0.5:
+                ops.append('P:a:r.%d:%s:%d:0:%s:-' % (i, _o(acct), c, _o(owt)))
             elif form < 0.75 or not master:
                 ops.append('P:a:e:%s:%d:%d:%s:-' % (_o(acct), c, i, _o(owt)))
             else:
                 w2 = WTN[owt or wt]
                 a = acct or 0
-                ops.append("P:a:f.m.%dh.%dh.%dh.%d.%d:%s:0:0:%s:-" % (
-                    PURPOSE[w2], nets()[net]['bip44_cointype'], a, c, i, _o(a), _o(owt)))
-        elif explicit:
-            ops.append('B:a:%s:%d:%d:%s:-:%d' % (_o(acct), rng.choice([0, 1]), rng.randrange(0, 8), _o(owt),
+                ops.append("P:a:f.m.%dh.%dh.%dh.%d.%d:%s:0:0:%s:-" % (PURPOSE[w2], coin(net), a, c, i, _o(a), _o(owt)))
+        elif kind == 'B':
+            c = chg if issuance else rng.choice([0, 1])
+            ops.append('B:a:%s:%d:%d:%s:-:%d' % (_o(acct), c, rng.randrange(0, 12 if issuance else 8), _o(owt),
                                                    rng.choice([2, 3, 4])))
-        else:
-            ops.append('K:a:%s:%d:-:-:1' % (_o(acct), chg))
     return ops
+
+
+MASTER_KINDS = ('seed', 'mnem', 'mnemk', 'mnems', 'xprv', 'wkey', 'xprvs', 'xprvk')
+ACCOUNT_PUB_KINDS = ('xpub', 'xpubw', 'xpubs', 'xpubk')
+ACCOUNT_PRIV_KINDS = ('axprv', 'axprvs', 'axprvk')
+NEEDS_SRC = ('xprv', 'wkey', 'xpub', 'xpubw', 'axprv')
+
+
+def create_cmd(rng, scn, slot, kind, net, wt, acct, src=None, flags=None):
+    """C:<slot>:<kind>:<net>:<wt>:<acct>:<src|->:<flags>:<extended key text|->:<language>"""
+    wtn = WTN[wt]
+    if flags is None:
+        flags = ''
+        if rng.random() < 0.3:
+            flags += 'o'                                  # wallet_create_or_open
+        objectlike = kind in ('seed', 'mnemk', 'mnems', 'xprvk', 'xpubk', 'axprvk', 'wkey')
+        if rng.random() < 0.25 and (objectlike or (kind == 'mnem' and net == 'bitcoin')):
+            flags += 'n'                                  # network left to the key object / the default
+        if rng.random() < 0.25 and (objectlike or (kind == 'mnem' and wtn == 'segwit')):
+            flags += 'w'                                  # witness type left to the key object / the default
+    given = '-'
+    if wtn not in FROZEN_NETS[net][4]:
+        pass                                              # the network has no such keys; the request must be refused
+    elif kind in ('xprvs', 'xprvk'):
+        given = scn.xprv(net, wtn)
+    elif kind in ('xpubs', 'xpubk'):
+        given = scn.account_key(net, wtn, acct, False)
+    elif kind in ('axprvs', 'axprvk'):
+        given = scn.account_key(net, wtn, acct, True)
+    return 'C:%s:%s:%s:%s:%d:%s:%s:%s:%s' % (slot, kind, net, wt, acct, src if kind in NEEDS_SRC else '-', flags or '-',
+                                            given, scn.lang)
+
+
+def master_kinds_for(scn, have_src):
+    ks = ['seed', 'mnems', 'xprvs', 'xprvk']
+    if scn.lang == 'english':
+        ks += ['mnem', 'mnem', 'mnemk']
+    if have_src:
+        ks += ['xprv']
+    return ks
 
 
 def gen_cases(rng, tier):
     big = tier == 'thorough'
     cs = []
-    names = list(nets().keys())
+    names = NET_NAMES
+    for lang in LANGS:
+        wordlist(lang)
+    langs = [l for l in LANGS if wordlist(l)]
     # --- table paths for every key structure (incl. the multisig ones) on every network
     for wt in 'lps':
         for ms in (0, 1):
@@ -323,67 +582,199 @@ def gen_cases(rng, tier):
                 for (a, c, i, co) in [(0, 0, 0, 0), (3, 1, 7, 2), (rng.randrange(0, 1 << 20), rng.randrange(0, 2),
                                                                   rng.randrange(0, 1 << 31), rng.randrange(0, 15))]:
                     cs.append(Case('expand', 'expand %s %d %d %d %d %d %d %s' % (
-                        wt, ms, nets()[net]['bip44_cointype'], a, c, i, co, net), meta=('expand', wt, ms, net, a, c, i, co)))
-    # --- every network x witness type: creation, first keys, reopen
+                        wt, ms, coin(net), a, c, i, co, net), meta=('expand', wt, ms, net, a, c, i, co)))
+    # --- every network x witness type: creation (the way of creating rotates), first keys, reopen, out-of-order
+    #     explicit indices followed by new keys, watch-only restore
+    n = 0
     for net in names:
         for wt in 'lps':
-            ws, seed = _mnemonic(rng)
+            pw = '' if n % 3 == 0 else _password(rng)
+            scn = Scn(rng, password=pw)
             acct = rng.randrange(0, 4)
-            cs.append(Case('create', 'run %s %s C:a:seed:%s:%s:%d K:a:-:0:-:-:1 K:a:-:1:-:-:2 R:a G:a:-:0:-:-:3 D:a '
-                           'C:b:xpub:%s:%s:%d:a G:b:-:0:-:-:3 D:b' % (seed.hex(), '_'.join(ws), net, wt, acct, net, wt, acct),
-                           meta=('run',)))
-    # --- histories + restores
-    n_hist = 900 if big else 40
+            mk = ['seed', 'mnem', 'mnemk', 'xprvs', 'mnem', 'xprvk', 'mnems'][n % 7]
+            ak = ['xpub', 'xpubs', 'xpubk', 'xpubw', 'axprvs'][n % 5]
+            hi = rng.randrange(4, 12)
+            lo = rng.randrange(1, hi)
+            scn.cmds = [create_cmd(rng, scn, 'a', mk, net, wt, acct),
+                        'K:a:-:0:-:-:1', 'K:a:-:1:-:-:2', 'R:a', 'G:a:-:0:-:-:3',
+                        'P:a:r.0.%d:-:0:0:-:-' % hi, 'P:a:r.0.%d:-:0:0:-:-' % lo, 'K:a:-:0:-:-:1', 'R:a', 'K:a:-:0:-:-:2',
+                        'L:a:p:-:-:-:-:-:-', 'D:a',
+                        create_cmd(rng, scn, 'b', ak, net, wt, acct, src='a'),
+                        'G:b:-:0:-:-:3', 'P:b:r.1.%d:-:0:0:-:-' % hi, 'P:b:r.1.%d:-:0:0:-:-' % lo, 'K:b:-:1:-:-:2', 'D:b']
+            cs.append(Case('create', scn.req(), meta=('run',)))
+            n += 1
+    # --- creation / restoration matrix: one sentence (+ password), many ways to make the wallet, all must agree
+    n_matrix = 300 if big else 27
+    for j in range(n_matrix):
+        lang = 'english' if j % 3 != 2 else langs[(j // 3) % len(langs)]
+        pw = '' if j % 4 == 3 else _password(rng)
+        scn = Scn(rng, lang=lang, password=pw)
+        net = names[j % len(names)] if j % 2 == 0 else rng.choice(['bitcoin', 'testnet', 'litecoin', 'bitcoinlib_test'])
+        wt = 'l' if net.startswith('dogecoin') else 'lps'[(j // 2) % 3]
+        acct = rng.choice([0, 0, 1, 2])
+        scn.cmds = [create_cmd(rng, scn, 'a', 'seed', net, wt, acct, flags=''),
+                    'G:a:-:0:-:-:3', 'G:a:-:1:-:-:2', 'M:a:-:-:-', 'D:a']
+        pool = master_kinds_for(scn, True) + list(ACCOUNT_PUB_KINDS) + list(ACCOUNT_PRIV_KINDS)
+        must = ['mnem'] if lang == 'english' else ['mnems']
+        kinds = must + rng.sample(pool, 4 if not big else 6)
+        for i, kind in enumerate(kinds):
+            slot = 'r%d' % i
+            racct = acct if (kind in MASTER_KINDS or rng.random() < 0.5) else rng.randrange(0, 4)
+            scn.cmds.append(create_cmd(rng, scn, slot, kind, net, wt, racct, src='a'))
+            scn.cmds += ['G:%s:-:0:-:-:3' % slot, 'G:%s:-:1:-:-:2' % slot]
+            if rng.random() < 0.5:
+                scn.cmds.append('R:%s:o' % slot if rng.random() < 0.5 else 'R:%s' % slot)
+            scn.cmds += ['K:%s:-:0:-:-:1' % slot, 'D:%s' % slot]
+        cs.append(Case('restore_matrix', scn.req(), meta=('run',)))
+    # --- the model computes the BIP39 seed itself (PBKDF2 in the extracted model: slow, a few cases)
+    for j in range(16 if big else 3):
+        scn = Scn(rng, password=['TREZOR', '', _password(rng)][j % 3], model_seed=True)
+        net, wt = rng.choice(['bitcoin', 'litecoin', 'testnet']), rng.choice('lps')
+        scn.cmds = [create_cmd(rng, scn, 'a', ['mnem', 'mnemk', 'mnem'][j % 3], net, wt, 0, flags=''),
+                    'G:a:-:0:-:-:2', 'K:a:-:1:-:-:1', 'D:a',
+                    create_cmd(rng, scn, 'b', 'seed', net, wt, 0, flags=''), 'G:b:-:0:-:-:2', 'D:b']
+        cs.append(Case('bip39_model_seed', scn.req(), meta=('run',)))
+    # --- Wallet.create(keys=<WalletKey object>): the main key object of a live wallet (must copy the wallet) and of a
+    #     wallet that was just re-opened (known finding create_from_walletkey until fixes/C09-3 is in)
+    for j in range(40 if big else 4):
+        scn = Scn(rng)
+        net, wt = rng.choice(['bitcoin', 'testnet', 'bitcoinlib_test']), 'lps'[j % 3]
+        acct = rng.choice([0, 1])
+        scn.cmds = [create_cmd(rng, scn, 'a', rng.choice(['seed', 'mnem', 'xprvs']), net, wt, acct, flags=''),
+                    'K:a:-:0:-:-:1']
+        if j % 2:
+            scn.cmds.append('R:a')
+        scn.cmds += [create_cmd(rng, scn, 'b', 'wkey', net, wt, acct, src='a', flags=''), 'G:b:-:0:-:-:2',
+                     'K:b:-:1:-:-:1', 'D:b', 'D:a']
+        cs.append(Case('create_from_walletkey', scn.req(), meta=('run',)))
+    # --- multisig cosigner wallets (BIP48 / BIP45 key books): probe judged by the independent oracle
+    ms_nets = ['bitcoin', 'testnet', 'litecoin', 'bitcoinlib_test', 'dogecoin', 'litecoin_testnet', 'regtest', 'signet']
+    for j in range(200 if big else 14):
+        seed = bytes(rng.randrange(256) for _ in range(32))
+        net = ms_nets[j % len(ms_nets)]
+        wt = 'l' if net.startswith('dogecoin') else 'lps'[(j // 2) % 3]
+        n = rng.choice([2, 2, 3])
+        m = rng.randrange(1, n + 1)
+        own = rng.randrange(n)
+        cmds = ['C:a:%s:%s:%d:%d:%d' % (net, wt, n, m, own)]
+        known_class = j % 7 == 6          # bulk / explicit-path requests: recorded class multisig_address_index
+        for _ in range(rng.randrange(6, 14)):
+            r = rng.random()
+            if r < 0.45:
+                # BIP45 paths carry the cosigner index: another cosigner's chain is a chain of its own there
+                cos = rng.randrange(n) if (wt == 'l' and rng.random() < 0.3) else None
+                cmds.append('K:a:%d:%s:1' % (rng.choice([0, 0, 1]), _o(cos)))
+            elif r < 0.70:
+                cmds.append('G:a:%d:1' % rng.choice([0, 0, 1]))
+            elif r < 0.82:
+                cmds.append('U:a:%d' % rng.randrange(0, 20))
+            elif r < 0.92:
+                cmds.append('R:a')
+            elif known_class:
+                cmds.append(rng.choice(['K:a:0:-:3', 'G:a:0:3', 'P:a:0:%d' % rng.randrange(2, 9)]))
+            else:
+                cmds.append('K:a:1:-:1')
+        if known_class:
+            cmds += [rng.choice(['G:a:0:3', 'P:a:0:7']), 'K:a:0:-:1', 'K:a:0:-:1']
+        cmds += ['K:a:0:-:1', 'K:a:1:-:1']
+        cs.append(Case('multisig_known_class' if known_class else 'multisig', 'msrun %s %s' % (seed.hex(), ' '.join(cmds)),
+                       meta=('msrun',)))
+    # --- index issuance: out-of-order explicit indices interleaved with new_key / get_key / reopen on one chain
+    n_iss = 600 if big else 44
+    for j in range(n_iss):
+        scn = Scn(rng, password='' if rng.random() < 0.7 else _password(rng))
+        net = names[j % len(names)]
+        wt = 'l' if net.startswith('dogecoin') else 'lps'[(j // len(names)) % 3]
+        acct = rng.choice([0, 0, 1, 3])
+        level = rng.choice(['m', 'm', 'm', 'pub', 'prv'])
+        if level == 'm':
+            scn.cmds = [create_cmd(rng, scn, 'a', rng.choice(master_kinds_for(scn, False)), net, wt, acct)]
+        else:
+            scn.cmds = [create_cmd(rng, scn, 'a', rng.choice(['xpubs', 'xpubk'] if level == 'pub' else
+                                                           ['axprvs', 'axprvk']), net, wt, acct)]
+        # the pattern every index rule must survive: a high index first, then a lower one, then new keys
+        hi = rng.randrange(3, 14)
+        lo = rng.randrange(0, hi)
+        c0 = rng.choice([0, 0, 1])
+        scn.cmds += ['P:a:r.%d.%d:-:0:0:-:-' % (c0, hi), 'P:a:r.%d.%d:-:0:0:-:-' % (c0, lo)]
+        if rng.random() < 0.5:
+            scn.cmds.append('R:a')
+        scn.cmds += ['K:a:-:%d:-:-:%d' % (c0, rng.choice([1, 1, 2])), 'K:a:-:%d:-:-:1' % c0]
+        scn.cmds += gen_history(rng, net, wt, level == 'm', True, rng.randrange(10, 22 if not big else 40), issuance=True)
+        scn.cmds += ['K:a:-:0:-:-:1', 'K:a:-:1:-:-:1', 'D:a']
+        # a restore of the same wallet continues independently; both must agree wherever they overlap
+        if level == 'm':
+            rk = rng.choice(master_kinds_for(scn, True) + ['xpub', 'xpubs', 'axprvs'])
+        else:
+            rk = rng.choice(['xpubs', 'xpubk', 'axprvs'])
+        scn.cmds.append(create_cmd(rng, scn, 'r0', rk, net, wt, acct, src='a'))
+        scn.cmds += ['P:r0:r.%d.%d:-:0:0:-:-' % (c0, lo), 'K:r0:-:%d:-:-:2' % c0, 'G:r0:-:0:-:-:4', 'D:r0']
+        cs.append(Case('issuance', scn.req(), meta=('run',)))
+    # --- general histories + restores
+    n_hist = 600 if big else 30
     for j in range(n_hist):
-        ws, seed = _mnemonic(rng)
+        scn = Scn(rng, password='' if rng.random() < 0.6 else _password(rng))
         net = rng.choice(names if rng.random() < 0.6 else ['bitcoin', 'testnet', 'litecoin', 'bitcoinlib_test'])
         wt = 'l' if net.startswith('dogecoin') else rng.choice('lps')
         acct = rng.choice([0, 0, 1, 2, 3])
         explicit = rng.random() < 0.5
-        first = rng.choice(['seed', 'mnem'])
-        cmds = ['C:a:%s:%s:%s:%d' % (first, net, wt, acct)]
-        cmds += gen_history(rng, net, wt, True, explicit, rng.randrange(6, 16 if not big else 24))
-        cmds.append('D:a')
+        scn.cmds = [create_cmd(rng, scn, 'a', rng.choice(['seed', 'mnem', 'mnemk', 'xprvs']), net, wt, acct)]
+        scn.cmds += gen_history(rng, net, wt, True, explicit, rng.randrange(6, 16 if not big else 24))
+        scn.cmds.append('D:a')
         # restores of the same wallet; each gets a short history of its own
-        kinds = rng.sample(['seed', 'mnem', 'xprv', 'xpub', 'xpubw', 'axprv'], rng.choice([1, 2, 2, 3]))
+        kinds = rng.sample(['seed', 'mnem', 'xprv', 'xpub', 'xpubw', 'axprv', 'xpubs', 'axprvk', 'mnemk', 'xprvk'],
+                           rng.choice([1, 2, 2, 3]))
         for n, kind in enumerate(kinds):
             slot = 'r%d' % n
-            racct = acct if kind in ('seed', 'mnem', 'xprv') or rng.random() < 0.7 else rng.randrange(0, 4)
-            src = ':a' if kind in ('xprv', 'xpub', 'xpubw', 'axprv') else ''
-            cmds.append('C:%s:%s:%s:%s:%d%s' % (slot, kind, net, wt, racct, src))
-            h = gen_history(rng, net, wt, kind in ('seed', 'mnem', 'xprv'), explicit and rng.random() < 0.5,
-                            rng.randrange(2, 7))
-            cmds += [c.replace(':a:', ':%s:' % slot, 1) for c in h]
-            cmds.append('G:%s:-:0:-:-:%d' % (slot, rng.choice([2, 4, 6])))
-            cmds.append('G:%s:-:1:-:-:2' % slot)
-            cmds.append('D:%s' % slot)
-        cmds.append('D:a')
-        cs.append(Case('history_explicit' if explicit else 'history_implicit',
-                       'run %s %s %s' % (seed.hex(), '_'.join(ws), ' '.join(cmds)), meta=('run',)))
+            is_master = kind in MASTER_KINDS
+            racct = acct if is_master or rng.random() < 0.7 else rng.randrange(0, 4)
+            scn.cmds.append(create_cmd(rng, scn, slot, kind, net, wt, racct, src='a'))
+            h = gen_history(rng, net, wt, is_master, explicit and rng.random() < 0.5, rng.randrange(2, 7))
+            scn.cmds += [c.replace(':a:', ':%s:' % slot, 1) if not c.startswith('R:a') else
+                         c.replace('R:a', 'R:%s' % slot, 1) for c in h]
+            scn.cmds.append('G:%s:-:0:-:-:%d' % (slot, rng.choice([2, 4, 6])))
+            scn.cmds.append('G:%s:-:1:-:-:2' % slot)
+            scn.cmds.append('D:%s' % slot)
+        scn.cmds.append('D:a')
+        cs.append(Case('history_explicit' if explicit else 'history_implicit', scn.req(), meta=('run',)))
     return cs
 
 
 def is_trivial(c, out):
+    if c.req.startswith('msrun '):
+        return out.startswith('C=ERR') or out == 'BADREQ'
     return out.startswith('ERR') or out == 'BADREQ' or 'C=ok' not in out and c.kind != 'expand'
 
 
 # ------------------------------------------------------------------ property-level verdict on the implementation
+class Row(object):
+    __slots__ = ('id', 'path_s', 'ap', 'addr', 'wif', 'acct', 'chg', 'idx', 'depth', 'used', 'purpose', 'net', 'wt',
+                 'priv', 'cos')
+
+
 class OW(object):
-    """what the oracle knows about one wallet"""
+    """what the oracle knows about one wallet: its own copy of the key table (built from the rows the wallet
+    reported, each checked against BIP32 derivation from the seed when it first appeared) and the index sets it
+    expects on every chain"""
 
     def __init__(self, kind, net, wt, acct):
         self.kind, self.net, self.wt, self.acct = kind, net, wt, acct
-        self.master = kind in ('seed', 'mnem', 'xprv')
-        self.private = kind != 'xpub' and kind != 'xpubw'
-        self.base = [] if self.master else [(PURPOSE[wt], True), (nets()[net]['bip44_cointype'], True), (acct, True)]
-        self.chains = {}          # (wt, net, acct, chg) -> set of indices known to exist
-        self.used = set()         # absolute paths
-        self.explicit = False
+        self.master = kind in MASTER_KINDS
+        self.private = kind not in ACCOUNT_PUB_KINDS
+        self.base = [] if self.master else [(PURPOSE[wt], True), (coin(net), True), (acct, True)]
+        self.rows = {}            # id -> Row
+        self.by_path = {}         # absolute path -> id
+        self.by_addr = {}         # address -> id
+        self.expect = {}          # (wt, net, acct, chg) -> set of indices that must exist (exactly)
+        self.requested = {}       # (wt, net, acct, chg) -> indices named explicitly by a request
         self.accounts = {(wt, net): {acct}}
-        self.known_ids = {}
+        self.dump = {}
 
     def chain(self, key):
-        return self.chains.setdefault(key, set())
+        return self.expect.setdefault(key, set())
+
+    def used_paths(self):
+        return set(r.ap for r in self.rows.values() if r.used)
 
 
 def _abs(ow, root, rel):
@@ -419,6 +810,22 @@ def _classify(ow, ap):
     return wts[0], c, a, g, i
 
 
+def _prefix_ok(ap, wt, net):
+    """a row above the address level lies on a documented path: m, m/p', m/p'/c', m/p'/c'/a', m/p'/c'/a'/chg"""
+    if len(ap) > 4:
+        return False
+    for n, (v, h) in enumerate(ap):
+        if h != (n < 3):
+            return False
+        if n == 0 and v != PURPOSE[wt]:
+            return False
+        if n == 1 and v != coin(net):
+            return False
+        if n == 3 and v not in (0, 1):
+            return False
+    return True
+
+
 def _material(der, ow, ap, f, wt, net):
     x = der.at(ap)
     if x is None:
@@ -441,7 +848,7 @@ def _leaf(der, ow, tok, wt, net, acct, chg, idx=None):
         return err, None
     ap, f = r
     cl = _classify(ow, ap)
-    want = (wt, nets()[net]['bip44_cointype'], acct, chg)
+    want = (wt, coin(net), acct, chg)
     if cl is None or cl[:4] != want or (idx is not None and cl[4] != idx):
         return ('handed-out key lies at %s, documented path for (%s, %s, account %d, change %d%s) is m/%d\'/%d\'/%d\'/%d/%s'
                 % (f[0], wt, net, acct, chg, '' if idx is None else ', index %d' % idx, PURPOSE[wt], want[1], acct, chg,
@@ -452,24 +859,167 @@ def _leaf(der, ow, tok, wt, net, acct, chg, idx=None):
     return e, (tuple(ap), cl[4])
 
 
+def _full_row(der, ow, r):
+    """a row reported for the first time: checked against the seed and the documented layout, then filed"""
+    if len(r) != 14:
+        return 'malformed row %r' % ('|'.join(r)[:80],), None
+    (kid, path_s, addr, wif, acct, chg, idx, depth, used, purpose, net, wt, priv, cos) = r
+    pp = parse_path(path_s)
+    ap = _abs(ow, pp[0], pp[1]) if pp else None
+    if ap is None:
+        return 'stored key %s: path %r is not a path of this wallet' % (kid, path_s), None
+    if net not in FROZEN_NETS or wt not in PURPOSE:
+        return 'stored key at %s has network %s / witness type %s' % (path_s, net, wt), None
+    e = _material(der, ow, ap, [path_s, addr, wif, idx], wt, net)
+    if e:
+        return 'stored ' + e, None
+    if int(depth) != len(ap):
+        return 'stored key at %s has depth %s' % (path_s, depth), None
+    if ap and int(idx) != ap[-1][0]:
+        return 'stored key at %s has address_index %s' % (path_s, idx), None
+    if bool(int(priv)) != ow.private:
+        return 'stored key at %s is %s in a %s wallet' % (path_s, 'private' if int(priv) else 'public-only',
+                                                          'private' if ow.private else 'watch-only'), None
+    if len(ap) == 5:
+        cl = _classify(ow, ap)
+        if cl is None:
+            return 'address key stored at undocumented path %s' % path_s, None
+        if (cl[0], cl[1]) != (wt, coin(net)) or int(purpose) != PURPOSE[wt] or \
+                (chg == '-' or int(chg) != cl[3]) or int(acct) != cl[2]:
+            return ('row of %s says (%s, %s, purpose %s, account %s, change %s)' %
+                    (path_s, wt, net, purpose, acct, chg)), None
+    elif len(ap) > 5:
+        return 'key stored below the address level at %s' % path_s, None
+    elif ap and not _prefix_ok(ap, wt, net):
+        return 'key stored at %s is on no documented path of (%s, %s)' % (path_s, wt, net), None
+    row = Row()
+    row.id, row.path_s, row.ap, row.addr, row.wif = int(kid), path_s, tuple(ap), addr, wif
+    row.acct, row.chg, row.idx, row.depth, row.used = int(acct), chg, int(idx), int(depth), bool(int(used))
+    row.purpose, row.net, row.wt, row.priv, row.cos = int(purpose), net, wt, bool(int(priv)), cos
+    return None, row
+
+
+def _snapshot(der, ow, snap, expect_new, used_id):
+    """the key table after one command.  New rows are checked and filed; known rows must not have moved; the set of
+    new address keys must be exactly what the command was entitled to create; then the index invariant."""
+    if snap.startswith('CRASH'):
+        return 'Wallet.keys() failed after the command: %s' % snap
+    items = [] if not snap else snap.split(';')
+    present, new_leaves, last_id = set(), set(), 0
+    known_max = max(ow.rows) if ow.rows else 0
+    for it in items:
+        if '|' in it:
+            err, row = _full_row(der, ow, it.split('|'))
+            if err:
+                return err
+            if row.id in ow.rows:
+                return 'row id %d reported as new twice' % row.id
+            if row.id <= known_max:
+                return 'new row at %s got id %d, below the highest existing id %d' % (row.path_s, row.id, known_max)
+            if row.ap in ow.by_path:
+                return 'two rows at one position %s (ids %d and %d)' % (row.path_s, ow.by_path[row.ap], row.id)
+            if row.addr in ow.by_addr:
+                return 'keys %s and %s share address %s' % (ow.rows[ow.by_addr[row.addr]].path_s, row.path_s, row.addr)
+            if row.ap and tuple(row.ap[:-1]) not in ow.by_path and len(row.ap) > len(ow.base):
+                return 'key at %s stored without its parent' % row.path_s
+            if row.used:
+                return 'a new key at %s is born used' % row.path_s
+            ow.rows[row.id] = row
+            ow.by_path[row.ap] = row.id
+            ow.by_addr[row.addr] = row.id
+            if len(row.ap) == 5:
+                new_leaves.add(row.ap)
+            kid = row.id
+        else:
+            f = it.split('/')
+            if len(f) != 8:
+                return 'malformed compact row %r' % it[:60]
+            kid = int(f[0])
+            row = ow.rows.get(kid)
+            if row is None:
+                return 'row id %d appears without ever having been created' % kid
+            got = (int(f[1]), f[2], int(f[3]), int(f[4]), WTN.get(f[6]), f[7])
+            if got != (row.acct, row.chg, row.idx, row.depth, row.wt, row.net):
+                return ('stored key at %s changed its columns (account, change, index, depth, witness type, network): '
+                        '%s -> %s' % (row.path_s, (row.acct, row.chg, row.idx, row.depth, row.wt, row.net), got))
+            u = bool(int(f[5]))
+            if u != row.used:
+                if u and kid == used_id:
+                    row.used = True
+                else:
+                    return 'used flag of the key at %s changed to %d without a transaction on it' % (row.path_s, u)
+        if kid <= last_id:
+            return 'Wallet.keys() is not in id order'
+        last_id = kid
+        present.add(kid)
+    gone = set(ow.rows) - present
+    if gone:
+        return 'stored key at %s disappeared' % ow.rows[min(gone)].path_s
+    if new_leaves != expect_new:
+        extra, missing = new_leaves - expect_new, expect_new - new_leaves
+        if extra:
+            return ('address key %s was created although no request named it and it is not the next index of its chain'
+                    % ow.rows[ow.by_path[sorted(extra)[0]]].path_s)
+        return 'address key at %s was handed out but is not stored' % (sorted(missing)[0],)
+    # the index invariant, from the table alone: per chain no index twice, and every index that was not named
+    # explicitly by a request directly follows an existing one (no gaps relative to the highest issued index)
+    chains = {}
+    for row in ow.rows.values():
+        if len(row.ap) == 5:
+            cl = _classify(ow, row.ap)
+            key = (cl[0], row.net, cl[2], cl[3])
+            if cl[4] in chains.setdefault(key, set()):
+                return 'index %d issued twice on chain %s' % (cl[4], key)
+            chains[key].add(cl[4])
+    for key, idxs in chains.items():
+        want = ow.expect.get(key, set())
+        if idxs != want:
+            return 'chain %s holds indices %s, the requests so far call for %s' % (key, sorted(idxs), sorted(want))
+        named = ow.requested.get(key, set())
+        for i in idxs:
+            if i > 0 and i not in named and (i - 1) not in idxs:
+                return 'chain %s has a gap below index %d that no request asked for' % (key, i)
+    for key, want in ow.expect.items():
+        if want and key not in chains:
+            return 'chain %s is empty, the requests so far call for %s' % (key, sorted(want))
+    return None
+
+
+def _compact(row):
+    return [str(row.id), str(row.acct), row.chg, str(row.idx), str(row.depth), str(int(row.used)), WTL[row.wt], row.net]
+
+
+def _ap_of_tok(ow, tok):
+    pp = parse_path(tok.split('|')[0])
+    ap = _abs(ow, pp[0], pp[1]) if pp else None
+    return tuple(ap) if ap is not None else None
+
+
 def prop_check(c, out):
-    if 'CRASH' in out or out == 'BADREQ':
+    if 'CRASH' in out or out == 'BADREQ' or 'BADKEY' in out:
         return 'unexpected answer %r' % out[:160]
     m = c.meta or ('run',)
+    if c.req.startswith('msrun '):
+        return ms_check(c, out)
     if m[0] == 'expand':
         _, wt, ms, net, a, ch, i, co = m
-        coin = nets()[net]['bip44_cointype']
+        cn = coin(net)
         w = WTN[wt]
         if not ms:
-            want, enc = "m/%d'/%d'/%d'/%d/%d" % (PURPOSE[w], coin, a, ch, i), ('bech32' if w == 'segwit' else 'base58')
+            want, enc = "m/%d'/%d'/%d'/%d/%d" % (PURPOSE[w], cn, a, ch, i), ('bech32' if w == 'segwit' else 'base58')
         elif w == 'legacy':
             want, enc = "m/45'/%d/%d/%d" % (co, ch, i), 'base58'
         else:
-            want, enc = "m/48'/%d'/%d'/%d'/%d/%d" % (coin, a, 1 if w == 'p2sh-segwit' else 2, ch, i), \
+            want, enc = "m/48'/%d'/%d'/%d'/%d/%d" % (cn, a, 1 if w == 'p2sh-segwit' else 2, ch, i), \
                         ('bech32' if w == 'segwit' else 'base58')
         return None if out == want + ' ' + enc else 'path_expand gives %s, the BIPs give %s %s' % (out, want, enc)
     t = c.req.split(' ')
-    seed = bytes.fromhex(t[1])
+    sentence, password = parse_sentence_token(t[2])
+    # the seed every wallet of the scenario must have: BIP39 of sentence AND password (the request's own seed field
+    # was computed the same way by the generator; recomputing keeps replays honest)
+    seed = bip39_seed(sentence, password)
+    if t[1] != '-' and bytes.fromhex(t[1]) != seed:
+        seed = bytes.fromhex(t[1])          # replay files written before the password field existed
     der = Deriver(seed)
     cmds, toks = t[3:], out.split(' ')
     if len(toks) != len(cmds):
@@ -480,22 +1030,43 @@ def prop_check(c, out):
         op, val = tok.split('=', 1)
         if op != f[0]:
             return 'answer token %r does not belong to command %r' % (tok[:40], cmd)
+        snap = None
+        if '~' in val:
+            val, snap = val.split('~', 1)
+        expect_new, used_id = set(), None
         if f[0] == 'C':
             slot, kind, net, wt, acct = f[1], f[2], f[3], WTN[f[4]], int(f[5])
             refuse = net.startswith('dogecoin') and wt != 'legacy'
-            if len(f) > 6 and f[6] not in ws:
+            srcname = f[6] if len(f) > 6 and f[6] != '-' else None
+            if srcname and srcname not in ws:
                 continue
             if val != 'ok':
                 if refuse:
                     continue
-                return 'Wallet.create refused a valid request (%s)' % cmd
+                return 'Wallet.create refused a valid request (%s)' % cmd[:120]
             if refuse:
                 return 'Wallet.create accepted %s on %s' % (wt, net)
             ow = OW(kind, net, wt, acct)
             ws[slot] = ow
             ow.chain((wt, net, acct, 0)).add(0)
-            if len(f) > 6 and ws[f[6]].master:
-                ws[f[6]].accounts.setdefault((wt, net), set()).add(acct)     # exporting creates the account key
+            expect_new = {tuple([(PURPOSE[wt], True), (coin(net), True), (acct, True), (0, False), (0, False)])}
+            if srcname and ws[srcname].master:
+                ws[srcname].accounts.setdefault((wt, net), set()).add(acct)     # exporting creates the account key
+            if snap is None:
+                return 'no key table reported after %s' % cmd[:60]
+            e = _snapshot(der, ow, snap, expect_new, None)
+            if e:
+                if kind.startswith('mnem') and password:
+                    # say so when the wallet is the one of the sentence WITHOUT its password
+                    x0 = _master(bip39_seed(sentence, ''))
+                    first = snap.split(';')[0].split('|')
+                    if len(first) == 14 and first[2] == _address(net, wt, x0.pt):
+                        e += ' - the wallet has the master key of the sentence without the password %r' % password
+                return 'after %s: %s' % (cmd[:60], e)
+            # the main key of the wallet is the key the request named
+            mainrow = ow.rows.get(ow.by_path.get(tuple(ow.base)))
+            if mainrow is None:
+                return 'wallet created by %s has no main key row' % cmd[:60]
             continue
         if f[1] not in ws:
             continue
@@ -503,127 +1074,162 @@ def prop_check(c, out):
         if f[0] in ('K', 'G', 'B'):
             if f[0] == 'B':
                 acct, chg, first, wt, net, n = f[2], int(f[3]), int(f[4]), f[5], f[6], int(f[7])
-                ow.explicit = True
             else:
                 acct, chg, wt, net, n = f[2], int(f[3]), f[4], f[5], int(f[6])
             wt = WTN[wt] if wt != '-' else ow.wt
             net = net if net != '-' else ow.net
             foreign = wt != ow.wt or net != ow.net
             if val == 'ERR':
-                if foreign and not ow.master:
-                    continue
-                return 'a valid key request was refused: %s' % cmd
-            if foreign and not ow.master:
+                if not (foreign and not ow.master):
+                    return 'a valid key request was refused: %s' % cmd
+            elif foreign and not ow.master:
                 return 'an account-level wallet handed out keys of another witness type / network: %s' % cmd
-            keys = [] if val == '-' else val.split(',')
-            if len(keys) != n:
-                return '%s returned %d keys, %d requested' % (cmd, len(keys), n)
-            if acct != '-':
-                acct = int(acct)
-            elif net == ow.net:
-                acct = ow.acct
             else:
-                acct = None       # any existing account of that network
-            got = []
-            for k in keys:
-                a = acct
-                if a is None:
-                    pp = parse_path(k.split('|')[0])
-                    a = pp[1][2][0] if pp and len(pp[1]) == 5 else -1
-                    if a not in ow.accounts.get((wt, net), set()) and a != 0:
-                        return 'key %s handed out for an account that does not exist on %s' % (k.split('|')[0], net)
-                if not ow.master and a != ow.acct:
-                    a = ow.acct       # an account-level wallet has one account, whatever number is passed
-                err, r = _leaf(der, ow, k, wt, net, a, chg)
-                if err:
-                    return err
-                got.append((a, r))
-            if len(set(r[0] for _, r in got)) != len(got):
-                return '%s returned the same key twice' % cmd
-            if f[0] == 'K':
-                # fresh indices: 1 + highest index of the chain, consecutive
-                a = got[0][0]
-                ch = ow.chain((wt, net, a, chg))
-                nxt = max(ch) + 1 if ch else 0
-                idxs = [r[1] for _, r in got]
-                if idxs != list(range(nxt, nxt + n)):
-                    return ('new_key(s) issued indices %s on chain (%s, %s, account %d, change %d) whose highest index is %s'
-                            % (idxs, wt, net, a, chg, max(ch) if ch else None))
-            if f[0] == 'B' and [r[1] for _, r in got] != list(range(first, first + n)):
-                return 'keys_for_path(address_index=%d, number_of_keys=%d) returned indices %s' % (
-                    first, n, [r[1] for _, r in got])
-            if f[0] == 'G':
+                keys = [] if val == '-' else val.split(',')
+                if len(keys) != n:
+                    return '%s returned %d keys, %d requested' % (cmd, len(keys), n)
+                if acct != '-':
+                    acct = int(acct)
+                elif net == ow.net:
+                    acct = ow.acct
+                else:
+                    acct = None       # any existing account of that network
+                got = []
+                for k in keys:
+                    a = acct
+                    if a is None:
+                        pp = parse_path(k.split('|')[0])
+                        a = pp[1][2][0] if pp and len(pp[1]) == 5 else -1
+                        if a not in ow.accounts.get((wt, net), set()) and a != 0:
+                            return 'key %s handed out for an account that does not exist on %s' % (k.split('|')[0], net)
+                    if not ow.master and a != ow.acct:
+                        a = ow.acct       # an account-level wallet has one account, whatever number is passed
+                    err, r = _leaf(der, ow, k, wt, net, a, chg)
+                    if err:
+                        return err
+                    got.append((a, r))
+                if len(set(r[0] for _, r in got)) != len(got):
+                    return '%s returned the same key twice' % cmd
+                if f[0] == 'K':
+                    # fresh indices: 1 + highest index of the chain, consecutive; never a key that exists already
+                    a = got[0][0]
+                    ch = ow.chain((wt, net, a, chg))
+                    nxt = max(ch) + 1 if ch else 0
+                    idxs = [r[1] for _, r in got]
+                    if idxs != list(range(nxt, nxt + n)):
+                        return ('new_key(s) issued indices %s on chain (%s, %s, account %d, change %d) whose highest '
+                                'index is %s' % (idxs, wt, net, a, chg, max(ch) if ch else None))
+                    for _, r in got:
+                        if r[0] in ow.by_path:
+                            return 'new_key(s) returned the key at index %d, which was handed out before' % r[1]
+                if f[0] == 'B':
+                    if [r[1] for _, r in got] != list(range(first, first + n)):
+                        return 'keys_for_path(address_index=%d, number_of_keys=%d) returned indices %s' % (
+                            first, n, [r[1] for _, r in got])
+                    for a, r in got:
+                        ow.requested.setdefault((wt, net, a, chg), set()).add(r[1])
+                if f[0] == 'G':
+                    used = ow.used_paths()
+                    fresh = []
+                    for a, r in got:
+                        if r[0] in used:
+                            return 'get_key(s) handed out the used key at index %d' % r[1]
+                        if r[0] not in ow.by_path:
+                            fresh.append(r[1])
+                    if fresh:
+                        ch = ow.chain((wt, net, got[0][0], chg))
+                        nxt = max(ch) + 1 if ch else 0
+                        if fresh != list(range(nxt, nxt + len(fresh))):
+                            return ('get_key(s) created indices %s on chain (%s, %s, account %d, change %d) whose highest '
+                                    'index is %s' % (fresh, wt, net, got[0][0], chg, max(ch) if ch else None))
                 for a, r in got:
-                    if r[0] in ow.used:
-                        return 'get_key(s) handed out the used key at index %d' % r[1]
-            for a, r in got:
-                ow.chain((wt, net, a, chg)).add(r[1])
-                ow.accounts.setdefault((wt, net), set()).add(a)
+                    if r[0] not in ow.by_path:
+                        expect_new.add(r[0])
+                    ow.chain((wt, net, a, chg)).add(r[1])
+                    ow.accounts.setdefault((wt, net), set()).add(a)
         elif f[0] in ('A', 'M'):
             acct, wt, net = f[2], f[3], f[4]
             wt = WTN[wt] if wt != '-' else ow.wt
             net = net if net != '-' else ow.net
             foreign = wt != ow.wt or net != ow.net
+            ok = True
             if f[0] == 'A':
                 exists = acct != '-' and int(acct) in ow.accounts.get((wt, net), set())
                 if val == 'ERR':
-                    if not ow.master or exists:
-                        continue
-                    return 'new_account refused a valid request: %s' % cmd
-                if not ow.master or exists:
+                    if not (not ow.master or exists):
+                        return 'new_account refused a valid request: %s' % cmd
+                    ok = False
+                elif not ow.master or exists:
                     return 'new_account succeeded where it must refuse: %s' % cmd
-                path_s, addr, wif, idx = val.split('|')
+                else:
+                    path_s, addr, wif, idx = val.split('|')
             else:
                 if val == 'ERR':
-                    if foreign and not ow.master:
-                        continue
-                    return 'public_master refused: %s' % cmd
-                path_s, wif = val.split('|')
-            pp = parse_path(path_s)
-            ap = _abs(ow, pp[0], pp[1]) if pp else None
-            if ap is None or len(ap) != 3 or not all(h for _, h in ap) or ap[0][0] != PURPOSE[wt] or \
-                    ap[1][0] != nets()[net]['bip44_cointype']:
-                return 'account key of (%s, %s) lies at %s' % (wt, net, path_s)
-            a = ap[2][0]
-            if acct != '-' and a != int(acct) and ow.master:
-                return 'account %s requested, key at %s returned' % (acct, path_s)
-            if f[0] == 'A' and a in ow.accounts.get((wt, net), set()):
-                return 'new_account returned the existing account %d' % a
-            x = der.at(ap)
-            if f[0] == 'A':
-                e = _material(der, ow, ap, [path_s, addr, wif, idx], wt, net)
-                if e:
-                    return e
-                ow.chain((wt, net, a, 0)).add(0)
-                ow.chain((wt, net, a, 1)).add(0)
-            else:
-                pub = _xser(net, wt, XK(None, x.pt, x.c, x.depth, x.fpr, x.child), False)
-                if wif != pub:
-                    return 'public_master().wif at %s is %s…, derivation gives %s…' % (path_s, wif[:20], pub[:20])
-            ow.accounts.setdefault((wt, net), set()).add(a)
+                    if not (foreign and not ow.master):
+                        return 'public_master refused: %s' % cmd
+                    ok = False
+                else:
+                    path_s, wif = val.split('|')
+            if ok:
+                pp = parse_path(path_s)
+                ap = _abs(ow, pp[0], pp[1]) if pp else None
+                if ap is None or len(ap) != 3 or not all(h for _, h in ap) or ap[0][0] != PURPOSE[wt] or \
+                        ap[1][0] != coin(net):
+                    return 'account key of (%s, %s) lies at %s' % (wt, net, path_s)
+                a = ap[2][0]
+                if acct != '-' and a != int(acct) and ow.master:
+                    return 'account %s requested, key at %s returned' % (acct, path_s)
+                if f[0] == 'A' and a in ow.accounts.get((wt, net), set()):
+                    return 'new_account returned the existing account %d' % a
+                if f[0] == 'A' and acct == '-':
+                    # documented default: the last account of that witness type and network + 1 (0 when there is none)
+                    have = ow.accounts.get((wt, net), set())
+                    want_a = max(have) + 1 if have else 0
+                    if a != want_a:
+                        return ('new_account() created account %d for (%s, %s); the accounts so far are %s, the next one '
+                                'is %d' % (a, wt, net, sorted(have), want_a))
+                x = der.at(ap)
+                if f[0] == 'A':
+                    e = _material(der, ow, ap, [path_s, addr, wif, idx], wt, net)
+                    if e:
+                        return e
+                    for g in (0, 1):
+                        ow.chain((wt, net, a, g)).add(0)
+                        leaf = tuple(ap) + ((g, False), (0, False))
+                        if leaf not in ow.by_path:
+                            expect_new.add(leaf)
+                else:
+                    pub = _xser(net, wt, XK(None, x.pt, x.c, x.depth, x.fpr, x.child), False)
+                    if wif != pub:
+                        return 'public_master().wif at %s is %s…, derivation gives %s…' % (path_s, wif[:20], pub[:20])
+                ow.accounts.setdefault((wt, net), set()).add(a)
         elif f[0] == 'P':
-            ow.explicit = True
             spec, acct, chg, idx, wt, net = f[2], f[3], int(f[4]), int(f[5]), f[6], f[7]
             wt = WTN[wt] if wt != '-' else ow.wt
             net = net if net != '-' else ow.net
             if val == 'ERR':
-                if wt != ow.wt and not ow.master:
-                    continue
-                return 'key_for_path refused: %s' % cmd
-            a = int(acct) if acct != '-' else ow.acct
-            if not ow.master:
-                a = ow.acct
-            parts = spec.split('.')
-            if parts[0] == 'r':
-                chg, idx = int(parts[1]), int(parts[2])
-            elif parts[0] == 'f':
-                wtp = [w for w, v in PURPOSE.items() if v == int(parts[2][:-1])][0]
-                wt, a, chg, idx = wtp, int(parts[4][:-1]), int(parts[5]), int(parts[6])
-            err, r = _leaf(der, ow, val, wt, net, a, chg, idx)
-            if err:
-                return err
-            ow.chain((wt, net, a, chg)).add(idx)
-            ow.accounts.setdefault((wt, net), set()).add(a)
+                if not (wt != ow.wt and not ow.master):
+                    return 'key_for_path refused: %s' % cmd
+            else:
+                a = int(acct) if acct != '-' else ow.acct
+                if not ow.master:
+                    a = ow.acct
+                parts = spec.split('.')
+                if parts[0] in 'rs' and len(parts) == 3:
+                    chg, idx = int(parts[1]), int(parts[2])
+                elif parts[0] in 'rs':          # only the index is named; the change flag is the argument
+                    idx = int(parts[1])
+                elif parts[0] == 'f':
+                    wtp = [w for w, v in PURPOSE.items() if v == int(parts[2][:-1])][0]
+                    wt, a, chg, idx = wtp, int(parts[4][:-1]), int(parts[5]), int(parts[6])
+                err, r = _leaf(der, ow, val, wt, net, a, chg, idx)
+                if err:
+                    return err
+                if r[0] not in ow.by_path:
+                    expect_new.add(r[0])
+                ow.chain((wt, net, a, chg)).add(idx)
+                ow.requested.setdefault((wt, net, a, chg), set()).add(idx)
+                ow.accounts.setdefault((wt, net), set()).add(a)
         elif f[0] == 'X':
             path_s, addr = val.split('|')
             pp = parse_path(path_s)
@@ -631,66 +1237,410 @@ def prop_check(c, out):
             cl = _classify(ow, ap) if ap else None
             if cl is None:
                 return 'WalletKey.public() of a key at undocumented path %s' % path_s
+            row = ow.rows.get(ow.by_path.get(tuple(ap)))
+            if row is None or row.addr != addr:
+                return 'WalletKey.public() at %s shows address %s, the stored key has %s' % (
+                    path_s, addr, row.addr if row else None)
         elif f[0] == 'U':
-            ow.known_ids.setdefault('used', []).append(int(val))
-        elif f[0] == 'D':
-            rows = [] if not val else [r.split('|') for r in val.split(',')]
-            seen_addr, seen_pos = {}, {}
-            chains = {}
-            for r in rows:
-                (kid, path_s, addr, wif, acct, chg, idx, depth, used, purpose, net, wt, priv, cos) = r
-                pp = parse_path(path_s)
+            if val != 'ERR':
+                used_id = int(val)
+                row = ow.rows.get(used_id)
+                if row is None or len(row.ap) != 5:
+                    return 'a transaction was filed on key id %s, which is no address key of the wallet' % val
+        elif f[0] == 'S':
+            # scan with silent providers: on every chain (witness type in use, network, account, requested change
+            # flags) at least <gap> unused keys follow the last used one; whatever it creates continues its chain
+            gap, acct, chg, net = int(f[2]), f[3], f[4], f[5]
+            net = net if net != '-' else ow.net
+            if val != 'ok':
+                return 'scan failed: %s' % cmd
+            if acct != '-':
+                a = int(acct)
+            elif net == ow.net:
+                a = ow.acct
+            else:
+                a = None
+            if not ow.master:
+                a = ow.acct
+            new_by_chain = {}
+            for it in (snap or '').split(';'):
+                if '|' not in it:
+                    continue
+                r = it.split('|')
+                pp = parse_path(r[1]) if len(r) == 14 else None
                 ap = _abs(ow, pp[0], pp[1]) if pp else None
-                if ap is None:
-                    return 'stored key %s: path %r is not a path of this wallet' % (kid, path_s)
-                e = _material(der, ow, ap, [path_s, addr, wif, idx], wt, net)
+                cl = _classify(ow, ap) if ap else None
+                if cl is None:
+                    continue            # rows above the address level; the snapshot check files them
+                key = (cl[0], r[10], cl[2], cl[3])
+                if (a is not None and cl[2] != a) or r[10] != net or (chg != '-' and cl[3] != int(chg)):
+                    return 'scan(%s) created the key at %s, outside the chains it was asked to scan' % (cmd, r[1])
+                new_by_chain.setdefault(key, []).append((cl[4], tuple(ap)))
+            for key, lst in new_by_chain.items():
+                ch = ow.chain(key)
+                nxt = max(ch) + 1 if ch else 0
+                idxs = sorted(i for i, _ in lst)
+                if idxs != list(range(nxt, nxt + len(idxs))):
+                    return 'scan created indices %s on chain %s whose highest index is %s' % (
+                        idxs, key, max(ch) if ch else None)
+                for i, ap in lst:
+                    ch.add(i)
+                    expect_new.add(ap)
+                ow.accounts.setdefault((key[0], key[1]), set()).add(key[2])
+            ow.scanned = (gap, a, chg, net)
+        elif f[0] == 'R':
+            if val != 'ok':
+                return 'the wallet could not be opened again: %s' % tok[:60]
+        elif f[0] == 'L':
+            e = _listing_check(ow, f, val)
+            if e:
+                return e
+        elif f[0] == 'D':
+            # the full table: rows seen before must be unchanged in every column; rows not seen before (an export
+            # for another wallet may have created an account key) are checked like any new row, and none of them may
+            # be an address key
+            rows = [] if not val else [r.split('|') for r in val.split(',')]
+            for r in rows:
+                if len(r) != 14:
+                    return 'malformed row in Wallet.keys(): %r' % ('|'.join(r)[:80],)
+            if any(int(r[0]) not in ow.rows for r in rows):
+                e = _snapshot(der, ow, ';'.join('/'.join(_compact(ow.rows[int(r[0])])) if int(r[0]) in ow.rows
+                                                else '|'.join(r) for r in rows), set(), None)
                 if e:
-                    return 'stored ' + e
-                if int(depth) != len(ap):
-                    return 'stored key at %s has depth %s' % (path_s, depth)
-                if ap and int(idx) != ap[-1][0]:
-                    return 'stored key at %s has address_index %s' % (path_s, idx)
-                if bool(int(priv)) != ow.private:
-                    return 'stored key at %s is %s in a %s wallet' % (path_s, 'private' if int(priv) else 'public-only',
-                                                                      'private' if ow.private else 'watch-only')
-                if addr in seen_addr:
-                    return 'keys %s and %s share address %s' % (seen_addr[addr], path_s, addr)
-                seen_addr[addr] = path_s
-                cl = _classify(ow, ap)
-                if len(ap) == 5:
-                    if cl is None:
-                        return 'address key stored at undocumented path %s' % path_s
-                    if (cl[0], cl[1]) != (wt, nets()[net]['bip44_cointype']) or int(purpose) != PURPOSE[wt] or \
-                            (chg == '-' or int(chg) != cl[3]) or int(acct) != cl[2]:
-                        return ('row of %s says (%s, %s, purpose %s, account %s, change %s)' %
-                                (path_s, wt, net, purpose, acct, chg))
-                    chains.setdefault(cl[:4], set()).add(cl[4])
-                    if int(used):
-                        ow.used.add(tuple(ap))
-            if not ow.explicit:
-                for ck, idxs in chains.items():
-                    if idxs != set(range(len(idxs))):
-                        return 'chain %s has indices %s without any explicit-path request' % (ck, sorted(idxs))
+                    return 'after %s: %s' % (cmd, e)
+            seen_ids = set()
+            for r in rows:
+                row = ow.rows[int(r[0])]
+                now = (r[1], r[2], r[3], int(r[4]), r[5], int(r[6]), int(r[7]), bool(int(r[8])), int(r[9]), r[10], r[11],
+                       bool(int(r[12])), r[13])
+                was = (row.path_s, row.addr, row.wif, row.acct, row.chg, row.idx, row.depth, row.used, row.purpose, row.net,
+                       row.wt, row.priv, row.cos)
+                if now != was:
+                    return 'stored key %s changed: %s -> %s' % (row.path_s, was, now)
+                seen_ids.add(row.id)
+            if seen_ids != set(ow.rows):
+                return 'Wallet.keys() no longer lists the key at %s' % ow.rows[min(set(ow.rows) - seen_ids)].path_s
             ow.dump = {r[1]: r[2] for r in rows}
+        if snap is not None:
+            e = _snapshot(der, ow, snap, expect_new, used_id)
+            if e:
+                return 'after %s: %s' % (cmd[:60], e)
+            if f[0] == 'S':
+                gap, a, chg, net = ow.scanned
+                wts = set(r.wt for r in ow.rows.values() if r.net == net) or {ow.wt}
+                for wt in wts:
+                    for g in ((0, 1) if chg == '-' else (int(chg),)):
+                        known_accts = sorted(ow.accounts.get((wt, net), set()))
+                        accts = [a] if a is not None else (known_accts if len(known_accts) == 1 else [])
+                        for a1 in accts:
+                            rows = sorted((r for r in ow.rows.values() if len(r.ap) == 5 and r.wt == wt and r.net == net
+                                           and r.acct == a1 and r.chg == str(g)), key=lambda r: r.id)
+                            last_used = max([r.id for r in rows if r.used] or [0])
+                            free = [r for r in rows if not r.used and r.id > last_used]
+                            if len(free) < gap:
+                                return ('after %s: chain (%s, %s, account %d, change %d) has %d unused keys after its last '
+                                        'used one, the gap limit is %d' % (cmd, wt, net, a1, g, len(free), gap))
+        elif f[0] in 'KGBAPMURS':
+            return 'no key table reported after %s' % cmd[:60]
     # restored wallets reproduce the same addresses (same absolute position -> same address)
     pos = {}
     for slot, ow in ws.items():
-        for path_s, addr in getattr(ow, 'dump', {}).items():
-            pp = parse_path(path_s)
-            ap = tuple(_abs(ow, pp[0], pp[1]))
-            if len(ap) == 5:
-                if ap in pos and pos[ap][0] != addr:
-                    return 'wallets %s and %s disagree on the address at %s' % (pos[ap][1], slot, path_s)
-                pos[ap] = (addr, slot)
+        for row in ow.rows.values():
+            if len(row.ap) == 5:
+                key = (row.ap, row.wt, row.net)
+                if key in pos and pos[key][0] != row.addr:
+                    return 'wallets %s and %s disagree on the address at %s' % (pos[key][1], slot, row.path_s)
+                pos[key] = (row.addr, slot)
     return None
 
 
-KNOWN_CLASSES = {}
+def cosigner_seed(seed, i):
+    return hmac.new(b'c09 cosigner', seed + bytes([i]), hashlib.sha512).digest()[:32]
+
+
+def _ms_script(m, pubs):
+    """BIP11 / BIP67: OP_m <33-byte key> ... OP_n OP_CHECKMULTISIG over the lexicographically sorted keys"""
+    return bytes([0x50 + m]) + b''.join(b'\x21' + p for p in sorted(pubs)) + bytes([0x50 + len(pubs), 0xae])
+
+
+def _ms_address(net, wt, script):
+    _, _, sh, hrp, _ = FROZEN_NETS[net]
+    if wt == 'legacy':
+        return _b58check(bytes.fromhex(sh) + _h160(script))                                   # P2SH
+    wsh = hashlib.sha256(script).digest()
+    if wt == 'p2sh-segwit':
+        return _b58check(bytes.fromhex(sh) + _h160(b'\x00\x20' + wsh))                        # P2SH-P2WSH (BIP141)
+    return _segwit_addr(hrp, wsh)                                                             # P2WSH
+
+
+def ms_check(c, out):
+    """multisig cosigner wallet history: every handed-out key lies at the BIP48 / BIP45 path of (network, script
+    type, account 0, change, index[, cosigner]), its address is the m-of-n script address over the cosigners' BIP32
+    keys at that path, indices are issued without gaps or repeats, no two keys share an address; checked on the
+    wallet's whole key table after every command"""
+    if 'CRASH' in out or out == 'BADREQ':
+        return 'unexpected answer %r' % out[:160]
+    t = c.req.split(' ')
+    seed = bytes.fromhex(t[1])
+    cmds, toks = t[2:], out.split(' ')
+    if len(toks) != len(cmds):
+        return 'answer has %d tokens for %d commands' % (len(toks), len(cmds))
+    W = None
+    for cmd, tok in zip(cmds, toks):
+        f = cmd.split(':')
+        op, val = tok.split('=', 1)
+        snap = None
+        if '~' in val:
+            val, snap = val.split('~', 1)
+        if f[0] == 'C':
+            net, wt, n, m, own = f[2], WTN[f[3]], int(f[4]), int(f[5]), int(f[6])
+            if val == 'ERR':
+                return 'Wallet.create refused a valid multisig request: %s' % cmd
+            ders = [Deriver(cosigner_seed(seed, i)) for i in range(n)]
+            bip45 = wt == 'legacy'
+            acct_path = [(45, True)] if bip45 else [(48, True), (coin(net), True), (0, True),
+                                                     (1 if wt == 'p2sh-segwit' else 2, True)]
+            # the cosigner order is the order of the supplied keys' public keys (own: master key; others: the
+            # account-level public key they hand over)
+            supplied = [_ser(ders[i].at(() if i == own else tuple(acct_path)).pt) for i in range(n)]
+            order = sorted(range(n), key=lambda i: supplied[i])
+            W = dict(net=net, wt=wt, n=n, m=m, own=order.index(own), ders=[ders[i] for i in order], bip45=bip45,
+                     acct_path=acct_path, rows={}, by_addr={}, by_path={}, chains={}, named={})
+            if int(val) != W['own']:
+                return 'the wallet says it is cosigner %s, its key sorts at position %d' % (val, W['own'])
+            if snap:
+                return 'a new multisig wallet already holds keys: %s' % snap[:80]
+            continue
+        if W is None:
+            continue
+
+        def expected(chg, idx, cos):
+            rel = [(cos, False), (chg, False), (idx, False)] if W['bip45'] else [(chg, False), (idx, False)]
+            ap = tuple(W['acct_path'] + rel)
+            pubs = [_ser(d.at(ap).pt) for d in W['ders']]
+            path_s = 'm/' + '/'.join('%d%s' % (v, "'" if h else '') for v, h in ap)
+            return path_s, _ms_address(W['net'], W['wt'], _ms_script(W['m'], pubs))
+        new_expected, used_id = {}, None       # path -> (idx, chg, cos) of the rows this command may add
+        if f[0] in ('K', 'G', 'P'):
+            if val == 'ERR':
+                return 'a valid key request was refused: %s' % cmd
+            keys = [k.split('|') for k in val.split(',')]
+            if f[0] == 'K':
+                chg, cos, n = int(f[2]), (W['own'] if f[3] == '-' else int(f[3])), int(f[4])
+            elif f[0] == 'G':
+                chg, cos, n = int(f[2]), W['own'], int(f[3])
+            else:
+                chg, cos, n = int(f[2]), W['own'], 1
+            if len(keys) != n:
+                return '%s returned %d keys' % (cmd, len(keys))
+            chain = W['chains'].setdefault((chg, cos), set())
+            nxt = max(chain) + 1 if chain else 0
+            fresh = []
+            for k in keys:
+                if len(k) != 6:
+                    return 'malformed key %r' % (k,)
+                path_s, addr, idx, kchg, kacct, kcos = k
+                known = W['by_path'].get(path_s)
+                if f[0] == 'P':
+                    want_idx = int(f[3])
+                    W['named'].setdefault((chg, cos), set()).add(want_idx)
+                elif known is not None and f[0] == 'G':
+                    want_idx = W['rows'][known]['idx']
+                    if W['rows'][known]['used']:
+                        return 'get_key handed out the used key at %s' % path_s
+                    if (W['rows'][known]['chg'], W['rows'][known]['cos']) != (chg, cos):
+                        return 'get_key(change=%d) handed out %s' % (chg, path_s)
+                else:
+                    want_idx = nxt + len(fresh)
+                    if known is not None:
+                        return ('new_key returned the key at %s, which was handed out before (highest index of the chain '
+                                'is %s)' % (path_s, max(chain) if chain else None))
+                want_path, want_addr = expected(chg, want_idx, cos)
+                if path_s != want_path:
+                    return '%s handed out the key at %s, expected %s' % (cmd, path_s, want_path)
+                if addr != want_addr:
+                    return 'multisig key at %s has address %s, the cosigner keys at that path give %s' % (
+                        path_s, addr, want_addr)
+                if (int(idx), int(kchg), int(kacct), int(kcos)) != (want_idx, chg, 0, cos):
+                    return ('key at %s reports (address_index, change, account, cosigner) = (%s, %s, %s, %s)' %
+                            (path_s, idx, kchg, kacct, kcos))
+                if known is None:
+                    fresh.append(want_idx)
+                    new_expected[path_s] = (want_idx, chg, cos, addr)
+                chain.add(want_idx)
+        elif f[0] == 'U':
+            if val != 'ERR':
+                used_id = int(val)
+        elif f[0] == 'R':
+            if val != 'ok':
+                return 'the wallet could not be opened again'
+        # the key table after the command
+        if snap is None:
+            return 'no key table after %s' % cmd
+        seen = set()
+        for it in ([] if not snap else snap.split(';')):
+            r = it.split('/')
+            if len(r) != 13:
+                return 'malformed row %r' % it[:80]
+            kid, path_s, addr, idx, chg, acct = int(r[0]), r[1].replace('.', '/'), r[2], int(r[3]), int(r[4]), int(r[5])
+            cos, wt, net, used, depth, ktype, purpose = int(r[6]), WTN.get(r[7]), r[8], bool(int(r[9])), int(r[10]), r[11], int(r[12])
+            seen.add(kid)
+            old = W['rows'].get(kid)
+            now = dict(path=path_s, addr=addr, idx=idx, chg=chg, acct=acct, cos=cos, wt=wt, net=net, used=used,
+                       depth=depth, ktype=ktype, purpose=purpose)
+            if old is not None:
+                if old != now:
+                    if used and not old['used'] and kid == used_id and dict(old, used=True) == now:
+                        old['used'] = True
+                        continue
+                    return 'stored multisig key %s changed: %s -> %s' % (path_s, old, now)
+                continue
+            if path_s not in new_expected:
+                return 'multisig key at %s appeared although no request created it' % path_s
+            widx, wchg, wcos, waddr = new_expected.pop(path_s)
+            want = dict(path=path_s, addr=waddr, idx=widx, chg=wchg, acct=0, cos=wcos, wt=W['wt'], net=W['net'],
+                        used=False, depth=len(W['acct_path']) + (3 if W['bip45'] else 2), ktype='multisig',
+                        purpose=45 if W['bip45'] else 48)
+            if now != want:
+                return 'stored multisig key at %s is %s, expected %s' % (path_s, now, want)
+            if addr in W['by_addr']:
+                return 'keys %s and %s share address %s' % (W['rows'][W['by_addr'][addr]]['path'], path_s, addr)
+            W['rows'][kid] = now
+            W['by_addr'][addr] = kid
+            W['by_path'][path_s] = kid
+        if new_expected:
+            return 'key at %s was handed out but is not stored' % sorted(new_expected)[0]
+        if set(W['rows']) - seen:
+            return 'stored multisig key %s disappeared' % W['rows'][min(set(W['rows']) - seen)]['path']
+        # index invariant from the table alone
+        chains = {}
+        for row in W['rows'].values():
+            key = (row['chg'], row['cos'])
+            if row['idx'] in chains.setdefault(key, set()):
+                return 'address_index %d stored twice on chain (change %d, cosigner %d)' % (row['idx'], key[0], key[1])
+            chains[key].add(row['idx'])
+        for key, idxs in chains.items():
+            named = W['named'].get(key, set())
+            for i in idxs:
+                if i > 0 and i not in named and i - 1 not in idxs:
+                    return 'chain (change %d, cosigner %d) has a gap below index %d' % (key[0], key[1], i)
+    return None
+
+
+def _listing_check(ow, f, val):
+    """Wallet.keys(...) and its wrappers against the oracle's own copy of the table: nothing outside the filter is
+    listed, and every ADDRESS key that passes every given filter is listed, in id order, once"""
+    how, acct, chg, depth, used, wt, net = f[2:9]
+    if val == 'ERR':
+        return 'listing refused: %s' % ':'.join(f)
+    items = [] if val == '-' else val.split(';')
+    key_depth = 5
+    if how == 'a':
+        wt = '-'
+        depth = depth if depth != '-' else str(key_depth)
+    elif how in 'pc':
+        wt, chg, depth = '-', ('0' if how == 'p' else '1'), str(key_depth)
+    elif how == 'l':
+        wt = '-'
+        depth = str(key_depth) if depth == '-' else ('-' if depth == '-1' else depth)
+
+    def passes(row):
+        return ((acct == '-' or row.acct == int(acct)) and (chg == '-' or row.chg == chg)
+                and (depth == '-' or row.depth == int(depth)) and (used == '-' or row.used == (used == '1'))
+                and (wt == '-' or row.wt == WTN[wt]) and (net == '-' or row.net == net))
+    if how == 'l':
+        rows = []
+        for a in items:
+            if a not in ow.by_addr:
+                return 'addresslist shows %s, which is no address of the wallet' % a
+            rows.append(ow.rows[ow.by_addr[a]])
+    else:
+        rows = []
+        for i in items:
+            if int(i) not in ow.rows:
+                return 'a listing shows row id %s, which the wallet never created' % i
+            rows.append(ow.rows[int(i)])
+    ids = [r.id for r in rows]
+    if ids != sorted(set(ids)):
+        return 'listing %s is not in id order or shows a key twice: %s' % (':'.join(f[2:]), ids)
+    for r in rows:
+        if not passes(r):
+            return 'listing %s shows the key at %s (account %d, change %s, depth %d, used %d, %s, %s)' % (
+                ':'.join(f[2:]), r.path_s, r.acct, r.chg, r.depth, r.used, r.wt, r.net)
+    shown = set(ids)
+    for r in ow.rows.values():
+        if len(r.ap) == 5 and passes(r) and r.id not in shown:
+            return 'listing %s misses the address key at %s' % (':'.join(f[2:]), r.path_s)
+    return None
+
+
+def _wkey_after_reopen(c, io=None, mo=None):
+    """the request hands the main WalletKey of a wallet that was re-opened and not used since to Wallet.create"""
+    cmds = c.req.split(' ')[3:]
+    fresh = {}            # slot -> True while its main key object has not been touched since the last reopen
+    for cmd in cmds:
+        f = cmd.split(':')
+        if f[0] == 'R':
+            fresh[f[1]] = True
+        elif f[0] == 'C' and f[2] == 'wkey' and len(f) > 6 and fresh.get(f[6]):
+            return True
+        elif f[0] in ('K', 'G', 'A', 'P', 'B', 'M', 'U') :
+            fresh[f[1]] = fresh.get(f[1], False)      # these do not build the main key object
+    return False
+
+
+def _ms_bulk_or_explicit(c, io=None, mo=None):
+    """a multisig wallet is asked for several keys at once or for an explicit path (their address_index column)"""
+    if not c.req.startswith('msrun '):
+        return False
+    for cmd in c.req.split(' ')[2:]:
+        f = cmd.split(':')
+        if f[0] == 'P' or (f[0] == 'K' and int(f[4]) > 1) or (f[0] == 'G' and int(f[3]) > 1):
+            return True
+    return False
+
+
+# class id -> predicate deciding from the case alone that it lies in a recorded class of defects
+KNOWN_CLASSES = {'create_from_walletkey': _wkey_after_reopen, 'multisig_address_index': _ms_bulk_or_explicit}
+
+
+_ACTIVE = None
+
+
+def _active_known():
+    global _ACTIVE
+    if _ACTIVE is None:
+        _ACTIVE = set()
+        for e in core.load_known(PROP):
+            if e.get('status') == 'known':
+                _ACTIVE.add(e.get('class') or e.get('id'))
+                _ACTIVE.add(e.get('id'))
+    return _ACTIVE
+
+
+def _main_wifs(out):
+    """wif of the main key row (path m / M) reported by each C=ok token"""
+    res = []
+    for tok in out.split(' '):
+        if tok.startswith('C=ok~'):
+            first = tok[5:].split(';')[0].split('|')
+            res.append(first[3] if len(first) == 14 else None)
+    return res
 
 
 def reproduce_known(entry, rundir):
     rc, out, err = core.run_impl(IMPL, [entry['witness']['request']], rundir)
-    return len(out) == 1 and out[0] == entry['witness']['impl_answer']
+    if len(out) != 1:
+        return False
+    if 'impl_answer' in entry['witness']:
+        return out[0] == entry['witness']['impl_answer']
+    if entry.get('class') == 'create_from_walletkey':
+        w = _main_wifs(out[0])
+        return len(w) == 2 and None not in w and w[0] != w[1]
+    if entry.get('class') == 'multisig_address_index':
+        ks = [t.split('~')[0] for t in out[0].split(' ') if t.startswith('K=')]
+        return len(ks) >= 2 and ks[-1] == ks[-2] and 'ERR' not in ks[-1]
+    return False
 
 
 def same(c, a, b):
@@ -787,8 +1737,12 @@ def main(tier, seed, replay=None):
     res.trusted.append('translator/gen_all.py (tables regenerated from /repo each run) and harness/*.py; implementation '
                        'adapter calls the public API with PYTHONPATH=/repo and a fresh BCL_DATA_DIR per worker; '
                        'bitcoinlib.wallets.Service replaced by an offline stub')
-    res.trusted.append('independent oracle: pure-Python secp256k1 + hashlib BIP32, Base58Check/Bech32 and extended-key '
-                       'encoders in harness/props/c09.py (not the library, not the model)')
+    res.trusted.append('independent oracle: pure-Python secp256k1 + hashlib BIP32/BIP39, Base58Check/Bech32, extended-key and '
+                       'multisig script address encoders, frozen network constants and word list digests in '
+                       'harness/props/c09.py (not the library, not the model, nothing read from /repo but the words '
+                       'of digest-checked BIP39 lists)')
+    for nt in WORDLIST_NOTES:
+        res.notes.append(nt)
 
     exe = None
     exe, dout = core.build_driver(DRIVER)
@@ -800,7 +1754,14 @@ def main(tier, seed, replay=None):
         cases = [Case(c['kind'], c['req'], c.get('key'), meta=(('expand',) + _expand_meta(c['req'])) if c['kind'] == 'expand'
                       else ('run',)) for c in rp.get('cases', [])]
     else:
-        cases = gen_cases(rng, tier if proof_ok else 'thorough')
+        cases = gen_cases(rng, tier)
+        if not proof_ok and tier == 'quick':
+            # a broken proof widens the search for a failing input: a second, differently seeded batch (the thorough
+            # streams of this property run for the better part of an hour and stay with --tier thorough)
+            seen = {c.req for c in cases}
+            extra = [c for c in gen_cases(random.Random(seed + 1), 'quick') if c.req not in seen]
+            cases += extra
+            res.notes.append('proof side broken: search widened with %d further cases' % len(extra))
     failing_input_found = False
     if cases:
         reqs = [c.req for c in cases]
@@ -826,7 +1787,21 @@ def main(tier, seed, replay=None):
                 pv = prop_check(c, io)
             except Exception as ex:
                 pv = 'oracle could not read the answer (%r): %s' % (ex, io[:120])
-            disagree = mo is not None and io != mo
+            disagree = mo is not None and mo != 'PROBE' and io != mo
+            if pv is not None or disagree:
+                kc = None
+                for cid, pred in KNOWN_CLASSES.items():
+                    if cid not in _active_known():
+                        continue      # only classes recorded as `known` excuse anything
+                    try:
+                        if pred(c, io, mo):
+                            kc = cid
+                            break
+                    except Exception:
+                        pass
+                if kc is not None:      # a failure inside a recorded class is a known finding, not a new violation
+                    res.count('known:' + kc)
+                    continue
             if pv is None and not disagree:
                 continue
             nviol += 1
